@@ -66,3 +66,14 @@ def _gtf_noncanonical(viol, scenario):
             if t != str(int(t)):
                 return True
     return False
+
+
+@predicate("lazy_single_index_typeerror")
+def _lazy_single_index(viol, scenario):
+    """KF-C05-lazy-single-index: t[i] (one integer) on a lazily read table raises TypeError in
+    npstructures.indexablearray._get_row (int() of a size-1 array, numpy >= 2) while the eager twin returns the entry."""
+    d = viol.detail
+    return (viol.oracle == "twin" and viol.kind.endswith(".item.one_fails")
+            and (d.get("op") or {}).get("op") == "item"
+            and str(d.get("lazy_result", "")).strip('"') == "Raised:TypeError"
+            and not str(d.get("eager_result", "")).strip('"').startswith("Raised"))
